@@ -253,6 +253,7 @@ class SpecEnv:
         q = Path()
         q.pc = p.pc
         q.heap, q.sigma, q.cells = p.heap, p.sigma, dict(p.cells)
+        q.events = p.events
         fr = Frame(self.fi, None, dict(self.env))
         fr.vars["__specenv__"] = self
         q.frames = [fr]
